@@ -11,13 +11,13 @@ from ..common import digest
 ID = "C02"
 RULE = ("C01's workload with the custom-motif share raised to 50% and every custom configuration containing a bare-edge motif "
         "(callback returns (a, b), naming callback a bare string), a one-edge-in-a-list motif or an exactly-two-edge motif, next to "
-        "k-edge motifs with homogeneous and per-edge names; results returned as tuples or lists; non-trivial = >=2 motif instances "
+        "k-edge motifs with homogeneous and per-edge names, the names given as tuple, list, or a fresh one-shot iterable (generator / iterator) per call; results returned as tuples or lists; non-trivial = >=2 motif instances "
         "and >=2 distinct result shapes among {bare, 1, 2, >=3 edges}; distinct = SHA-1 of (configuration, jds)")
 ASSUMPTIONS = c01.ASSUMPTIONS + ["ids need not be consecutive, start at 0, or follow call order - only injectivity per instance is required",
                                  "network type: attributes are asserted only on pairs that occur once in the callback log"]
-HEADLINE = ["generations", "id_groups_matched", "shape_bare", "shape_1", "shape_2", "shape_3+", "network_edges_checked", "fast", "network", "custom"]
+HEADLINE = ["generations", "id_groups_matched", "shape_bare", "shape_1", "shape_2", "shape_3+", "network_edges_checked", "oneshot_name_iterables", "fast", "network", "custom"]
 REQUIRED = {t: {"shape_bare": 20, "shape_1": 20, "shape_2": 20, "shape_3+": 20, "network_edges_checked": 50, "custom": 50, "fast": 20,
-                "id_groups_matched": 200} for t in ("quick", "thorough")}
+                "id_groups_matched": 200, "oneshot_name_iterables": 10} for t in ("quick", "thorough")}
 
 
 def gen_cases(tier, seed):
